@@ -935,6 +935,16 @@ func scanStartDelay(p *Prog, r *Report, fn *ssa.Function, depth int) (dTerms []P
 		if !sawPre || len(rest) != 1 {
 			return nil, desc, "the scan start is " + desc + ", want max(LastTrigger - firstFrameIndex + delay, NPresamples)"
 		}
+		// hold + D with D itself the larger of several values: read off the addition's operands
+		for _, tv := range maxTermVals(rets[0].Results[0]) {
+			if bo, ok := stripConv(tv).(*ssa.BinOp); ok && bo.Op == token.ADD {
+				for _, pair := range [][2]ssa.Value{{bo.X, bo.Y}, {bo.Y, bo.X}} {
+					if c.Of(pair[0]).Equal(hold) {
+						return maxTerms(c, pair[1]), desc, ""
+					}
+				}
+			}
+		}
 		return splitDelay(c, rest[0], hold), desc, ""
 	}
 	// several alternatives (returns, or the values merged into one result variable): the
@@ -1069,4 +1079,16 @@ func c02HelperSyncs(c *PolyCtx, call *ssa.Call, small, big, root string, wantVal
 		return false
 	}
 	return len(ReachAvoiding(h, nil, isGood, isReturn)) == 0
+}
+
+// maxTermVals: like maxTerms, as values.
+func maxTermVals(v ssa.Value) []ssa.Value {
+	if args, ok := minMaxArgs(v, "max"); ok {
+		var out []ssa.Value
+		for _, a := range args {
+			out = append(out, maxTermVals(a)...)
+		}
+		return out
+	}
+	return []ssa.Value{v}
 }
